@@ -4,7 +4,8 @@ Oracle: after every session of a generated history the examples returned per spl
 previous ones plus the newly written ones; Dataset.create on an existing dataset is refused and
 leaves every file unchanged."""
 from __future__ import annotations
-import collections
+import collections, shutil
+from pathlib import Path
 from harness.core import child
 from harness.checks import c04
 
@@ -57,6 +58,53 @@ def nested_sessions(args):
     return out
 
 
+def alternating_processes(a):
+    """(child) a long-lived writer process A and a second process B take turns: A writes a session, B (a fresh interpreter) writes a
+    session into the same directories, A — the same process, a new Dataset handle — writes again.  After A's first closed shard of
+    its last session (what a concurrent reader sees) and at the end, everything committed must be there."""
+    import subprocess, sys
+    from harness.core import sp
+    from harness.core.ctx import PY, VERIF
+    sp.sedpack()
+    from sedpack.io import Dataset
+    from sedpack.io.dataset_filler import DatasetFiller
+    root = Path(a["root"]); shutil.rmtree(root, ignore_errors=True)
+    sp.mk(root, fmt=a["fmt"], eps=2, hashes=tuple(a["hashes"]))
+    want, out = [], {"case": {k: a[k] for k in a if k != "root"}, "problems": []}
+    def session(lo, n, sub, probe=False):
+        ds = Dataset(root)
+        with DatasetFiller(ds, relative_path_from_split=Path(sub)) as f:
+            for v in range(lo, lo + n):
+                f.write_example(values=sp.val(v), split="train"); want.append(v)
+                if probe and v == lo + 2:      # a shard of this session has been closed: what does a reader see now?
+                    got = sorted(sp.read_ids(Dataset(root), "train"))
+                    missing = sorted(set(want[:-3]) - set(got))
+                    if missing:
+                        out["problems"].append(f"while the third session is writing, a reader misses committed examples {missing[:8]}")
+    try:
+        session(0, 5, a["sub"])
+        code = ("import sys; sys.path.insert(0, %r)\nfrom harness.core import sp\nsp.sedpack()\nfrom pathlib import Path\n"
+                "from sedpack.io import Dataset\nfrom sedpack.io.dataset_filler import DatasetFiller\n"
+                "ds = Dataset(%r)\nwith DatasetFiller(ds, relative_path_from_split=Path(%r)) as f:\n"
+                "    for v in range(100, 106): f.write_example(values=sp.val(v), split='train')\n") % (str(VERIF), str(root), a["sub"])
+        p = subprocess.run([PY, "-c", code], capture_output=True, text=True, timeout=300)
+        if p.returncode != 0:
+            raise RuntimeError("second process failed: " + p.stderr[-300:])
+        want.extend(range(100, 106))
+        session(200, 5, a["sub"], probe=True)
+        got = sorted(sp.read_ids(Dataset(root), "train"))
+        if got != sorted(want):
+            out["problems"].append(f"after the three sessions: lost {sorted(set(want) - set(got))[:8]} extra {sorted(set(got) - set(want))[:8]}")
+        try:
+            Dataset(root).check(show_progressbar=False)
+        except Exception as e:  # noqa: BLE001
+            out["problems"].append(f"check(): {type(e).__name__}: {str(e)[:120]}")
+    except Exception as e:  # noqa: BLE001
+        out["problems"].append(f"{type(e).__name__}: {str(e)[:200]}")
+    shutil.rmtree(root, ignore_errors=True)
+    return out
+
+
 def run(ctx):
     nest = child.call("harness.checks.c08", "nested_sessions",
                       [{"root": str(ctx.scratch / f"c08n_{i}"), "fmt": ["fb", "npz", "tfrec"][i % 3], "eps": 1 + i % 3, "multi": bool(i % 2)} for i in range(ctx.pick(3, 9))], timeout=900)
@@ -65,6 +113,11 @@ def run(ctx):
             ctx.report({"kind": "append-only", "nested_in_time": True},
                        f"a filler left open around another completed session: {r.get('error') or ''} read back {r.get('got')} instead of {r['want']} {r.get('problems') or ''}",
                        {"case": r["case"], "result": r})
+    for j, sub in enumerate([".", "a"][: ctx.pick(2, 2)]):
+        r = child.call("harness.checks.c08", "alternating_processes", {"root": str(ctx.scratch / f"c08_alt{j}"), "fmt": ["fb", "npz", "tfrec"][(j + ctx.seed) % 3],
+                                                                       "hashes": [["sha256"], []][j % 2], "sub": sub}, timeout=900)
+        if r["problems"]:
+            ctx.report({"kind": "append-only", "two_processes": True}, f"two writer processes taking turns (sub-directory {sub!r}): {r['problems'][0]}", {"case": r["case"], "problems": r["problems"]})
     cases = c04.gen(ctx, "c08")
     results = []
     for i in range(0, len(cases), 10):
